@@ -87,6 +87,7 @@ type Event struct {
 	Pt, St string
 	VS     int
 	Facts  map[string]bool
+	Vals   []Val // structured arguments (setMemo: key, tuple)
 }
 
 func (e Event) String() string { return e.Kind + "(" + strings.Join(e.Args, ",") + ")" }
@@ -145,7 +146,11 @@ func (s *State) key() string {
 
 // event appends an event, capping repetitions so that loops reach a fixpoint.
 func (s *State) event(kind string, pos token.Pos, args ...string) {
-	e := Event{Kind: kind, Args: args, Pos: pos, Pt: s.Pt, St: s.St, VS: s.VS}
+	s.eventV(kind, pos, nil, args...)
+}
+
+func (s *State) eventV(kind string, pos token.Pos, vals []Val, args ...string) {
+	e := Event{Kind: kind, Args: args, Pos: pos, Pt: s.Pt, St: s.St, VS: s.VS, Vals: vals}
 	e.Facts = make(map[string]bool, len(s.Facts))
 	for k, v := range s.Facts {
 		e.Facts[k] = v
